@@ -42,7 +42,7 @@ def case_text(c):
     if c.get("ienv"):
         L.append("ienv " + " ".join(map(str, c["ienv"])))
     L.append("thresh %s" % hexf(c.get("thresh", 1.0)))
-    for k in ("usepr", "symmetric", "fact", "trans", "trace", "dumplu", "timeout"):
+    for k in ("usepr", "symmetric", "fact", "trans", "trace", "dumplu", "timeout", "ldb", "ldx"):
         if k in c:
             L.append("%s %d" % (k, c[k]))
     if c.get("perturb"):
